@@ -2,6 +2,12 @@
 //! library; identity is judged by inode, closure by EOF on the read end.
 
 use std::os::unix::io::RawFd;
+use std::sync::RwLock;
+
+/// Runs that hand descriptor NUMBER 0 to the library need the process-wide descriptor table for
+/// themselves (lowest-free allocation is global): they take this lock exclusively, all other
+/// descriptor-creating runs share it. Keeps such runs exactly replayable.
+pub static FD0_LOCK: RwLock<()> = RwLock::new(());
 
 pub struct Pipe {
     pub rd: RawFd,
@@ -21,6 +27,30 @@ pub fn make_pipe() -> Result<(Pipe, RawFd), String> {
     let r = unsafe { libc::pipe2(fds.as_mut_ptr(), libc::O_CLOEXEC | libc::O_NONBLOCK) };
     if r != 0 {
         return Err(format!("pipe2 failed: {}", std::io::Error::last_os_error()));
+    }
+    // keep descriptor number 0 (when the process has it free) for descriptors that are handed
+    // to the library, not for the read ends the harness keeps
+    if fds[0] == 0 {
+        // SAFETY: plain fcntl/close on a descriptor we own.
+        unsafe {
+            let hi = libc::fcntl(0, libc::F_DUPFD_CLOEXEC, 3);
+            if hi > 0 {
+                libc::close(0);
+                fds[0] = hi;
+            }
+        }
+    }
+    // the write end can land on number 0 as well (another thread released 0 between the two
+    // allocations inside pipe2): only runs that hold the table exclusively may pass number 0
+    if fds[1] == 0 {
+        // SAFETY: plain fcntl/close on a descriptor we own.
+        unsafe {
+            let hi = libc::fcntl(0, libc::F_DUPFD_CLOEXEC, 3);
+            if hi > 0 {
+                libc::close(0);
+                fds[1] = hi;
+            }
+        }
     }
     Ok((Pipe { rd: fds[0], ino: ino_of(fds[0]) }, fds[1]))
 }
